@@ -32,6 +32,9 @@ time are not disturbed; everything here is independent of any property).
                        the variable bindings and the world of the point of failure (a failed operation has no effect),
                        then the statements after the `try`; a failure no handler names is re-raised (`exhaustive`:
                        sets of class names that cover every failure - then there is no re-raising arm).
+  alias locals         `d = x.attr` (attr listed in `alias_attrs`: a data attribute holding a mutable container that is
+                       never rebound) followed by `d[k] = v` / `d.items()`: the local is inlined (`inline_aliases`), so
+                       the same rules apply with and without the temporary.
   x is None            `({x}).isNone` / `({x}).isSome`
   import               `import` / `from .. import` inside a function body is dropped
   any statement        (`del d[k]`, `o.attr = v`, `d[k] = v`, bare calls) can be given a stmt rule
@@ -50,7 +53,8 @@ EFFECT_FLAGS = ("bind", "state", "bindstate")
 
 
 class Rules2S(Rules2):
-    def __init__(self, expr=(), stmt=(), monad=None, catch=None, state_name="w", exhaustive=(), **kw):
+    def __init__(self, expr=(), stmt=(), monad=None, catch=None, state_name="w", exhaustive=(), alias_attrs=(),
+                 **kw):
         stmt = [tuple(s) + ("",) * (4 - len(s)) for s in stmt]
         self.stmt_flag = [s[3] for s in stmt]
         Rules2.__init__(self, expr=expr, stmt=[(s[0], s[1] or "NONE", s[2]) for s in stmt], **kw)
@@ -61,12 +65,75 @@ class Rules2S(Rules2):
         # sets of exception class names that together cover every failure of M: a `try` that catches all classes of
         # one of them gets no re-raising arm (Lean rejects a redundant alternative)
         self.exhaustive = [frozenset(e) for e in exhaustive]
+        # plain data attributes that hold a mutable container which is never rebound: a local bound once to `x.attr`
+        # is an ALIAS of it (`d = new._groups; d[k] = v` is `new._groups[k] = v`), see `inline_aliases`
+        self.alias_attrs = frozenset(alias_attrs)
         for _p, _t, fl in self.expr:
             if fl not in ("",) + EFFECT_FLAGS:
                 raise ValueError("unknown expr flag %r" % fl)
         for fl in self.stmt_flag:
             if fl not in ("",) + EFFECT_FLAGS:
                 raise ValueError("unknown stmt flag %r" % fl)
+
+
+def _stores(node):
+    """(kind, key, lineno) of every binding in the function: ("name", id) / ("attr", (root id, attr))"""
+    out = []
+    for n in ast.walk(node):
+        if isinstance(n, ast.Name) and isinstance(n.ctx, (ast.Store, ast.Del)):
+            out.append(("name", n.id, getattr(n, "lineno", 0)))
+        elif (isinstance(n, ast.Attribute) and isinstance(n.ctx, (ast.Store, ast.Del))
+              and isinstance(n.value, ast.Name)):
+            out.append(("attr", (n.value.id, n.attr), getattr(n, "lineno", 0)))
+    return out
+
+
+def inline_aliases(fn_node, attrs):
+    """NORMALISATION: a local that is bound exactly once, outside every loop, to `x.attr` (attr in `attrs`: a data
+    attribute holding a mutable container) where `x` is not rebound afterwards and `x.attr` is never rebound, names
+    the very object `x.attr` names: the binding is dropped and every later use of the local is replaced by `x.attr`
+    (so that rules about `x.attr[k] = v` / `x.attr.items()` see through the temporary).  Anything else stays an
+    ordinary local.  Works on the AST in place; returns the names inlined."""
+    if not attrs:
+        return []
+    stores = _stores(fn_node)
+    in_loop = set()
+    for n in ast.walk(fn_node):
+        if isinstance(n, (ast.For, ast.While)):
+            for m in ast.walk(n):
+                if isinstance(m, ast.Assign):
+                    in_loop.add(id(m))
+    cands = {}
+    for n in ast.walk(fn_node):
+        if (isinstance(n, ast.Assign) and len(n.targets) == 1 and isinstance(n.targets[0], ast.Name)
+                and isinstance(n.value, ast.Attribute) and isinstance(n.value.value, ast.Name)
+                and n.value.attr in attrs and id(n) not in in_loop):
+            t, x, a = n.targets[0].id, n.value.value.id, n.value.attr
+            if sum(1 for k, key, _l in stores if k == "name" and key == t) != 1 or t == x:
+                continue
+            if any(k == "name" and key == x and l >= n.lineno for k, key, l in stores):
+                continue
+            if any(k == "attr" and key == (x, a) for k, key, _l in stores):
+                continue
+            cands[t] = n
+
+    class Sub(ast.NodeTransformer):
+        def visit_Name(self, node):
+            if isinstance(node.ctx, ast.Load) and node.id in cands:
+                v = cands[node.id].value
+                return ast.copy_location(ast.Attribute(value=ast.Name(id=v.value.id, ctx=ast.Load()), attr=v.attr,
+                                                       ctx=ast.Load()), node)
+            return node
+
+        def visit_Assign(self, node):
+            if any(node is c for c in cands.values()):
+                return None
+            return self.generic_visit(node)
+
+    if cands:
+        Sub().visit(fn_node)
+        ast.fix_missing_locations(fn_node)
+    return sorted(cands)
 
 
 class Translator2S(Translator2):
@@ -413,6 +480,23 @@ class Translator2S(Translator2):
         if getattr(ctx, "handlers", None):
             raise Untranslatable("loop inside a try body")
         return Translator2.loop(self, st, rest, scope, ind, ctx)
+
+    def function(self, fn, arg_names, ind=2, allow_unused=()):
+        """as Translator2.function, after the normalisations of this module (alias inlining)"""
+        from .py2lean2 import source_ast
+        node, _src = source_ast(fn)
+        a = node.args
+        params = [x.arg for x in a.posonlyargs + a.args + a.kwonlyargs]
+        if a.vararg:
+            params.append(a.vararg.arg)
+        if a.kwarg:
+            params.append(a.kwarg.arg)
+        mentioned = {n.id for st in node.body for n in ast.walk(st) if isinstance(n, ast.Name)}
+        for p in params:
+            if p not in arg_names and not (p in allow_unused and p not in mentioned):
+                raise Untranslatable("signature of %s changed: %s" % (node.name, ast.unparse(node.args)))
+        self.inlined = inline_aliases(node, self.r.alias_attrs)
+        return self.block(list(node.body), dict(arg_names), ind, self.top_ctx())
 
     def top_ctx(self):
         def end(scope, ind):
